@@ -423,6 +423,10 @@ struct ProcCase {
     extra_args: Vec<String>,
     /// input directory argument relative to the scratch root
     input: String,
+    /// working directory of the process, relative to the scratch root ("" = the root)
+    cwd: String,
+    /// inputs passed to the binary literally (relative to `cwd`), instead of `input` made absolute
+    raw_inputs: Vec<String>,
 }
 
 fn proc_cases(thorough: bool) -> Vec<ProcCase> {
@@ -447,6 +451,8 @@ fn proc_cases(thorough: bool) -> Vec<ProcCase> {
                     offending: Some("ws/edge-crate/src/lib.rs".into()),
                     extra_args: vec![],
                     input: "ws".into(),
+                    cwd: String::new(),
+                    raw_inputs: vec![],
                 });
             }
             let good = b"#[typeshare]\npub struct Good { pub a: u32 }\n".to_vec();
@@ -460,6 +466,8 @@ fn proc_cases(thorough: bool) -> Vec<ProcCase> {
                     offending: offending.map(String::from),
                     extra_args: extra.into_iter().map(String::from).collect(),
                     input: input.to_string(),
+                    cwd: String::new(),
+                    raw_inputs: vec![],
                 });
             };
             fault("invalid-utf8", vec![("ws/c/src/good.rs", good.clone()), ("ws/c/src/bad.rs", b"#[typeshare]\npub struct B { pub a: u32 } // \xff\xfe\n".to_vec())], vec![], Some("ws/c/src/bad.rs"), vec![], "ws");
@@ -479,6 +487,53 @@ fn proc_cases(thorough: bool) -> Vec<ProcCase> {
             fault("only-commented-annotation", vec![("ws/c/src/c.rs", b"// #[typeshare]\npub struct C { pub a: u32 }\n".to_vec())], vec![], None, vec![], "ws");
             fault("bom-prefixed", vec![("ws/c/src/bom.rs", [b"\xef\xbb\xbf".to_vec(), good.clone()].concat())], vec![], None, vec![], "ws");
             fault("crlf-line-endings", vec![("ws/c/src/crlf.rs", b"#[typeshare]\r\npub struct Good { pub a: u32 }\r\n".to_vec())], vec![], None, vec![], "ws");
+            // how the input directory is spelled on the command line, relative to where the process runs
+            for (cwd, inputs) in [
+                ("ws/mycrate", vec!["src"]),
+                ("ws/mycrate", vec!["src/"]),
+                ("ws/mycrate", vec!["."]),
+                ("ws/mycrate", vec!["./"]),
+                ("ws/mycrate", vec!["./src"]),
+                ("ws/mycrate", vec!["../mycrate/src"]),
+                ("ws/mycrate", vec!["src/sub"]),
+                ("ws/mycrate", vec!["src/lib.rs"]),
+                ("ws/mycrate", vec!["src", "src"]),
+                ("ws/mycrate", vec!["src", "src/sub"]),
+                ("ws", vec!["mycrate"]),
+                ("ws", vec!["mycrate/"]),
+                ("ws", vec!["mycrate/src"]),
+                ("ws", vec!["."]),
+                ("ws", vec!["mycrate", "other-crate"]),
+                ("ws/mycrate/src", vec!["."]),
+                ("ws/mycrate/src", vec![".."]),
+                ("ws/mycrate/src", vec!["sub"]),
+                ("ws/mycrate/src", vec!["../.."]),
+                ("", vec!["ws"]),
+                ("", vec!["src"]),
+                ("", vec!["."]),
+                ("src", vec!["."]),
+                ("src", vec!["../src"]),
+            ] {
+                v.push(ProcCase {
+                    label: format!("argshape:cwd={}:inputs={}", if cwd.is_empty() { "root" } else { cwd }, inputs.join("+")),
+                    files: vec![
+                        ("ws/mycrate/src/lib.rs".into(), good.clone()),
+                        ("ws/mycrate/src/sub/more.rs".into(), b"#[typeshare]\npub struct More { pub m: u32 }\n".to_vec()),
+                        ("ws/other-crate/src/lib.rs".into(), b"#[typeshare]\npub struct Other { pub o: u32 }\n".to_vec()),
+                        // a `src` directory with nothing above it
+                        ("src/lib.rs".into(), b"#[typeshare]\npub struct Rootless { pub r: u32 }\n".to_vec()),
+                        ("src/deep/x.rs".into(), b"#[typeshare]\npub struct Deep { pub d: u32 }\n".to_vec()),
+                    ],
+                    setup: vec![],
+                    lang,
+                    multi,
+                    offending: None,
+                    extra_args: vec![],
+                    input: String::new(),
+                    cwd: cwd.to_string(),
+                    raw_inputs: inputs.iter().map(|s| s.to_string()).collect(),
+                });
+            }
         }
     }
     v
@@ -526,8 +581,13 @@ fn run_proc_case(c: &ProcCase, timeout: Duration) -> ProcObs {
             i += 1;
         }
     }
-    args.push(sc.path(&c.input).to_string_lossy().into_owned());
-    let r = run_cli(&args, &sc.root, &[], timeout);
+    if c.raw_inputs.is_empty() {
+        args.push(sc.path(&c.input).to_string_lossy().into_owned());
+    } else {
+        args.extend(c.raw_inputs.iter().cloned());
+    }
+    let cwd = if c.cwd.is_empty() { sc.root.clone() } else { sc.path(&c.cwd) };
+    let r = run_cli(&args, &cwd, &[], timeout);
     let output_present = if c.multi { !snapshot(&sc.path("out")).is_empty() } else { out_path.is_file() };
     let names_offending = c.offending.as_ref().map(|o| r.stderr.contains(&*sc.path(o).to_string_lossy())).unwrap_or(true);
     ProcObs { class: r.class(), code: r.code, stderr: r.stderr.chars().take(1200).collect(), output_present, names_offending, argv: args }
@@ -583,7 +643,7 @@ pub fn c07_cli_family(rep: &mut Report) {
             }
         }
     }
-    rep.cov("cli_totality", json!({"process_runs": cases.len(), "outcome_classes": classes, "hangs_rerun_with_longer_watchdog": rerun, "watchdog_s": [4, 12], "cases": "every edge symbol alone + 17 file-level / argument faults × languages × single/multi"}));
+    rep.cov("cli_totality", json!({"process_runs": cases.len(), "outcome_classes": classes, "hangs_rerun_with_longer_watchdog": rerun, "watchdog_s": [4, 12], "cases": "every edge symbol alone + 17 file-level / argument faults + 24 spellings of the input argument (relative paths, working directories) × languages × single/multi"}));
     rep.cov_add("evaluations", cases.len() as u64);
     rep.cov_add("traces_validated_against_impl", cases.len() as u64);
 }
